@@ -80,6 +80,7 @@ func familyC16(thorough bool) []*scen.Cell {
 					setup := scen.SetupFile(true, decl, nil, []scen.MethodDecl{
 						{Notations: scen.Toggles(0, getter, 0, tcast, 0), Sig: "Conv(*S) *D"},
 						{Notations: append([]string{":style arg"}, scen.Toggles(0, getter, 0, tcast, 0)...), Sig: "Fill(*S) *D"},
+						{Notations: append([]string{":style arg", ":reverse"}, scen.Toggles(0, getter, 0, tcast, 0)...), Sig: "Back(*D) *S"},
 					})
 					cells = append(cells, &scen.Cell{
 						ID:     fmt.Sprintf("c16_%s_%s_%d_%d_%d", es.id, ed.id, named, tcast, getter),
@@ -105,7 +106,7 @@ func init() {
 	register("C16", "model_checking", func(e *Env) {
 		th := e.Rep.Thorough()
 		cells := familyC16(th)
-		e.Rep.Rule("element pairs E_src x E_dst over {int, int64, string, MyInt, Status, ext.EInt, Inner, *Inner, interface{}, error, Namer, []int, map[string]int, *int, Inner2} (quick: 10x10) x {unnamed, named slice type on the source / destination / both sides} x :typecast {off, on} x source offered by {field, getter under :getter} x style {return, arg}; " +
+		e.Rep.Rule("element pairs E_src x E_dst over {int, int64, string, MyInt, Status, ext.EInt, Inner, *Inner, interface{}, error, Namer, []int, map[string]int, *int, Inner2} (quick: 10x10) x {unnamed, named slice type on the source / destination / both sides} x :typecast {off, on} x source offered by {field, getter under :getter} x style {return, arg, arg with :reverse}; " +
 			"static: assigned iff elements assignable, or convertible and :typecast (reference ladder), no element conversion without :typecast; dynamic (reflect driver): for every slice value {nil, [a,b] cap 4, empty non-nil, [a], [a,b,c], two fields sharing one backing array} x destination-before {zero, dirty}: " +
 			"same length, element i equals the (converted) source element, for len > 0 the backing arrays differ and a write through either slice is invisible through the other, nil source => destination is its previous value or nil; " +
 			"non-trivial = accepted element pair executed with a non-empty source slice")
